@@ -29,7 +29,7 @@ ASSUMPTIONS = [
 ]
 BOUNDS = {
     # (threads, body, granularity, preemption bound)
-    'quick': [(2, 'create', 'line+ctor-opcode', 1), (2, 'create-close-create', 'line', 1), (2, 'sub-vs-plain', 'line+ctor-opcode', 1)],
+    'quick': [(2, 'create', 'line+ctor-opcode', 1), (2, 'create', 'line', 2), (2, 'create-close-create', 'line', 1), (2, 'sub-vs-plain', 'line+ctor-opcode', 1)],
     'thorough': [(2, 'create', 'line+ctor-opcode', 2), (2, 'create', 'line', 3), (2, 'create-close-create', 'line', 2),
                  (3, 'create', 'line', 2), (3, 'create', 'line+ctor-opcode', 1), (2, 'sub-vs-plain', 'line+ctor-opcode', 2),
                  (2, 'plain-vs-sub', 'line', 2)],
@@ -48,6 +48,7 @@ def _setup():
     _S['TS'] = TS
     _S['cls_snapshot'] = {k: v for k, v in vars(TS).items() if isinstance(v, simple) and not k.startswith('__')}
     _S['mod_snapshot'] = {k: v for k, v in vars(store).items() if isinstance(v, simple) and not k.startswith('__')}
+    _S['proxy'] = sched.proxy_threading(store)
     _S['locks'] = sched.replace_locks(
         [(vars(store), lambda k, v: setattr(store, k, v)), (dict(vars(TS)), lambda k, v: setattr(TS, k, v))]
     )
@@ -102,6 +103,8 @@ def _observe(s):
     owner = []
     for k in sorted(_S['cls_snapshot']):
         v = getattr(TS, k, None)
+        if not isinstance(v, (type(None), int, bool, str, float)):
+            v = f'<{type(v).__name__}>'  # e.g. a lock built lazily into a slot that held None at import
         owner.append(s.index_of.get(v, v) if isinstance(v, int) and not isinstance(v, bool) else v)
     return tuple(owner)
 
